@@ -13,7 +13,7 @@ from ..lang import plexp, sxfm
 from . import common as cm
 
 ID = 'C10'
-BOUNDS = {'quick': (5, 4), 'thorough': (6, 5)}
+BOUNDS = {'quick': (6, 4), 'thorough': (7, 5)}
 
 
 def in_fragment(m):
@@ -29,12 +29,8 @@ def cases(tier, seed):
     for n in range(3, n_ctc + 1):
         for m in sp.structures(n):
             if in_fragment(m):
-                if n == n_ctc and n >= 5:
-                    for t in ksets[::9]:
-                        yield ('SK', cm.with_ctc(m, t))
-                else:
-                    for t in ksets:
-                        yield ('SK', cm.with_ctc(m, t))
+                for t in ksets:
+                    yield ('SK', cm.with_ctc(m, t))
     for t1 in cm.k1()[::5]:
         for t2 in cm.k1()[::5]:
             yield ('SK', cm.on_carrier([t1, t2]))
@@ -45,7 +41,7 @@ def plan(tier):
     return {
         'chunk': 200,
         'bounds': 'S<=%d (six relation kinds, several relations per parent); S in 3..%d x (K_1^3 + K_2 subset) constraint trees '
-                  '(every 9th on the largest size); pairs of constraints on a carrier' % (n_plain, n_ctc),
+                  '; pairs of constraints on a carrier' % (n_plain, n_ctc),
         'rule': 'each export is treated as a program: interpreted by an independent SXFM / .exp interpreter over all 2^n '
                 'selections and compared with the brute-force configurations of the shadow; every feature must occur in the '
                 'export; uninterpretable output is a violation; non-trivial = group or constraint',
